@@ -72,6 +72,42 @@ def rm(path: str):
     shutil.rmtree(path, ignore_errors=True)
 
 
+def object_state(obj, depth=3, roots=()):
+    """Scalar instance attributes of a library object (and of the library objects it holds, to the given depth), as a sorted
+    tuple. It goes into canonical state forms next to the fields a check knows about, so that two histories are only merged
+    when the objects also agree in every attribute the check does NOT know about (e.g. one added by a code change)."""
+    import collections
+
+    out = []
+    seen = set()
+
+    def norm(text):
+        for r in roots:
+            if r:
+                text = text.replace(r, "<root>")
+        return text[:120]
+
+    def walk(o, path, d):
+        if id(o) in seen:
+            return
+        seen.add(id(o))
+        try:
+            items = sorted(vars(o).items())
+        except TypeError:
+            return
+        for k, v in items:
+            p = path + "." + k
+            if isinstance(v, (bool, int, float, str, bytes, type(None))):
+                out.append((p, norm(repr(v))))
+            elif isinstance(v, (list, tuple, set, frozenset, dict, collections.deque)):
+                out.append((p, "%s[%d]" % (type(v).__name__, len(v))))
+            elif d > 0 and (type(v).__module__ or "").startswith("twosigma."):
+                walk(v, p, d - 1)
+
+    walk(obj, "", depth)
+    return tuple(out)
+
+
 def reset_scratch_after_fork():
     pass
 
